@@ -7,7 +7,28 @@ Rate functions are module-level (picklable for parallel scans).
 from __future__ import annotations
 
 import numpy as np
-from scipy.linalg import expm
+from scipy.linalg import expm as _scipy_expm
+
+
+def expm(M: np.ndarray) -> np.ndarray:
+    """Matrix exponential by scaling and squaring of a Taylor polynomial (plain, no structure-specific shortcuts).
+
+    scipy.linalg.expm (1.18) takes a special path for triangular matrices that loses four digits when two diagonal
+    entries differ by one ulp (-1.9999999999999998 and -2.0, found by C04's thorough tier): the augmented matrices
+    used here are triangular whenever the network has no cycle, so the oracle does not rely on it.
+    """
+    M = np.asarray(M, dtype=float)
+    nrm = float(np.linalg.norm(M, 1))
+    s = max(0, int(np.ceil(np.log2(nrm / 0.25))) if nrm > 0.25 else 0)
+    X = M / (2.0**s)
+    E = np.eye(M.shape[0])
+    term = np.eye(M.shape[0])
+    for k in range(1, 25):
+        term = term @ X / k
+        E = E + term
+    for _ in range(s):
+        E = E @ E
+    return E
 
 
 def constant(k: float) -> float:
